@@ -157,11 +157,11 @@ class SeismicFileConverter(object):
                 # differ in another header word (segyio reads e.g. varying offsets as a third axis)
                 self.geom = Geometry2d(seismic.tracecount)
             elif seismic.ilines is not None and len(seismic.ilines) == 1:
-                # We have a 2D SEG-Y
-                self.geom = Geometry2d(seismic.xlines)
+                # We have a 2D SEG-Y (every trace of it: pre-stack lines have several per crossline)
+                self.geom = Geometry2d(seismic.xlines if seismic.tracecount == len(seismic.xlines) else seismic.tracecount)
             elif seismic.xlines is not None and len(seismic.xlines) == 1:
                 # We have a 2D SEG-Y
-                self.geom = Geometry2d(seismic.ilines)
+                self.geom = Geometry2d(seismic.ilines if seismic.tracecount == len(seismic.ilines) else seismic.tracecount)
             else:
                 # We have a regular 3D SEG-Y
                 self.geom = Geometry3d(0, len(seismic.ilines), 0, len(seismic.xlines))
